@@ -17,6 +17,7 @@ pub mod suites;
 pub mod history;
 pub mod hostile;
 pub mod ops;
+pub mod parse;
 pub mod proto;
 pub mod shim;
 pub mod storage;
